@@ -62,7 +62,7 @@ def run (ctx):
         ctx.ob('R-AGREE', f_, "transport fields are kept exactly for ICMP, TCP and UDP (`%s`)" % norm(n)[:50], good, "%s" % (sorted(v),) if good else
                "the prerequisite set is %s but from_packet extracts transport fields only for protocols 1, 6 and 17: a flow on another protocol with tp_src/tp_dst specified is "
                "installed un-wildcarded and can never match a frame (extraction yields no ports for it)" % (sorted(v),), (lof, n), 'D2')
-  ctx.floor('transport prerequisite tests', nproto, 3)
+  ctx.floor('transport prerequisite tests', nproto, 1)
   # ---- D1 -------------------------------------------------------------------------------------------
   mw = q.find_method(repo, m, 'matches_with_wildcards', 'C03'); eq = q.find_method(repo, m, '__eq__', 'C03')
   ctx.analysed(mw); ctx.analysed(eq)
@@ -345,7 +345,8 @@ def run (ctx):
   eg = q.cfg_of(ep)
   def rets_under (flag):
     is_w = lambda e: isinstance(e, ast.Attribute) and e.attr == 'is_wildcarded'
-    r = q.reach_under(repo, ftm, eg, q.Env({}, [(is_w, flag)]), te)
+    is_x = lambda e: isinstance(e, ast.Attribute) and e.attr == 'is_exact'          # the complementary property of ofp_match
+    r = q.reach_under(repo, ftm, eg, q.Env({}, [(is_w, flag), (is_x, not flag)]), te)
     return [n.ast.value for n in eg.nodes if n.kind == 'return' and n in r and n.ast.value is not None]
   rw = rets_under(True); rx = rets_under(False)
   exact = [repo.try_const(ftm, v, te) for v in rx]
